@@ -47,6 +47,9 @@ def cases(ctx):
     base = msgwork.cfg_of('packaged')
     var_text = [b for b in gen.data_bits(base) if base[str(b)]['field_type'] != 'FIXED'
                 and not base[str(b)].get('field_processor') and gen.is_text(base[str(b)])]
+    # the statement says "a field configured for PAN masking": fixed-width text elements wide enough for a card number too
+    var_text += [b for b in gen.data_bits(base) if base[str(b)]['field_type'] == 'FIXED' and base[str(b)]['field_length'] >= 12
+                 and not base[str(b)].get('field_processor') and gen.is_text(base[str(b)])]
     per = 6 if ctx.tier == 'quick' else 60
     for b in var_text:
         for proc in ('PAN', 'PAN-PREFIX'):
@@ -138,7 +141,11 @@ def judge_decode(ctx, case):
             cfg[str(b)]['field_python_type'] = 'string'    # the documented example configuration spells the default out
             ctx.count('masked elements that also spell out field_python_type string')
     w = ref.PREFIX[cfg[str(b)]['field_type']]
-    n = rng.choice([11, 12, 13, 16, 16, 19, rng.randint(11, min(40, 10 ** w - 1))])
+    if w:
+        n = rng.choice([11, 12, 13, 16, 16, 19, rng.randint(11, min(40, 10 ** w - 1))])
+    else:
+        n = cfg[str(b)]['field_length']
+        ctx.count('fixed-width elements carrying a masking processor')
     pan = ''.join(rng.choice('0123456789') for _ in range(n))
     msg = {'MTI': '1240', 'DE%d' % b: pan}
     # other elements: letters only (cannot coincide with the PAN's digits)
@@ -211,6 +218,8 @@ def require(m):
     reasons = []
     if set(m['classes'].get('card number lengths masked', ())) != set(range(10, 41)):
         reasons.append('mask(): lengths 10..40 not all driven')
+    if not m['counters'].get('fixed-width elements carrying a masking processor'):
+        reasons.append('no fixed-width element carried a masking processor')
     if set(m['classes'].get('routes', ())) != {'loads', 'IpmReader', 'IpmReader1014'}:
         reasons.append('decode routes not all driven')
     pl = set(m['classes'].get('processor placements', ()))
